@@ -265,7 +265,19 @@ func cacheKeyRule(p *core.Prog, r *core.Report, rule string, calls []cacheCall) 
 			lab[fname] = labeler{}
 		}
 		key := core.CallArg(cc.c, 1)
-		ok := core.AllOrigins(core.Origins(key, core.SliceOpts{}), func(o core.Origin) bool {
+		// the key may be handed to an unexported helper as a parameter: its call sites in the package decide
+		unexported, all := map[*ssa.Function]bool{}, map[*ssa.Function]bool{}
+		if pk := core.FuncPkg(cc.fn); pk != nil {
+			for _, f := range p.ModFuncs {
+				if fp := core.FuncPkg(f); fp != nil && fp.Path() == pk.Path() {
+					all[f] = true
+					if f.Object() != nil && !f.Object().Exported() {
+						unexported[f] = true
+					}
+				}
+			}
+		}
+		ok := core.AllOrigins(core.Origins(key, core.SliceOpts{Helpers: unexported, Callers: all}), func(o core.Origin) bool {
 			return o.Kind == core.OCall && o.Callee() != nil && core.IsModMethod(o.Callee(), "types/ref", "Ref", "SetDigest")
 		})
 		r.Check(ok, rule, fname, lab[fname].next(cc.field+"."+cc.method+" key"), p.Pos(cc.c.Pos()),
@@ -392,6 +404,69 @@ func c10R4(p *core.Prog, r *core.Report) {
 					if reach[m] {
 						okDup = false
 						detailDup = "the append is reachable from the 'digest already present' edge"
+					}
+				}
+			}
+			if !okDup {
+				// the membership test written with slices.ContainsFunc / IndexFunc and a digest-comparing literal
+				for _, b := range fn.Blocks {
+					ifi, isIf := core.LastInstr(b).(*ssa.If)
+					if !isIf {
+						continue
+					}
+					cnd, pol := core.StripNot(ifi.Cond, true)
+					var call *ssa.Call
+					present := 0 // successor taken when the digest is present
+					switch x := cnd.(type) {
+					case *ssa.Call:
+						call = x
+						if !pol {
+							present = 1
+						}
+					case *ssa.BinOp:
+						// slices.IndexFunc(...) >= 0 / < 0 / != -1 / == -1
+						c, isCall := x.X.(*ssa.Call)
+						if !isCall {
+							continue
+						}
+						call = c
+						found := x.Op == token.GEQ || x.Op == token.NEQ || x.Op == token.GTR
+						if found != pol {
+							present = 1
+						}
+					default:
+						continue
+					}
+					cal := core.Callee(call)
+					if cal == nil || cal.Pkg() == nil || cal.Pkg().Path() != "slices" || !(strings.HasPrefix(cal.Name(), "Contains") || strings.HasPrefix(cal.Name(), "Index")) {
+						continue
+					}
+					cmpDigest := false
+					for _, a := range call.Call.Args {
+						if isDigestType(a.Type()) {
+							cmpDigest = true // slices.Contains over digests
+						}
+						if lit := closureOf(a); lit != nil {
+							for _, lb := range lit.Blocks {
+								for _, in := range lb.Instrs {
+									if bo, ok := in.(*ssa.BinOp); ok && bo.Op == token.EQL && isDigestType(bo.X.Type()) {
+										cmpDigest = true
+									}
+								}
+							}
+						}
+					}
+					if !cmpDigest {
+						continue
+					}
+					reach := core.Reach{}.FromEdge(b, b.Succs[present])
+					okDup = true
+					detailDup = "the 'digest already present' edge does not reach the append"
+					for _, m := range muts {
+						if reach[m] {
+							okDup = false
+							detailDup = "the append is reachable from the 'digest already present' edge"
+						}
 					}
 				}
 			}
